@@ -57,7 +57,7 @@ def sort_case(draw, tier):
                                   max_size=min(3, nf), unique_by=lambda s: s if isinstance(s, int) else hdr.index(s))))
     # one case in ten at scale: hundreds / thousands of rows, chunk sizes that give a few hundred chunk files, or chunks
     # of exactly 1000 rows
-    big = draw(scale.blowup(sizes=[130, 300, 600, 1001, 2049], wide=False)) if n else None
+    big = scale.derive([tbl, repr(key)], sizes=[130, 300, 600, 1001, 2049], wide=False) if n else None
     # an int-looking field name such as '0' used by name is fine; an int key is always an index
     return {
         "blowup": big, "big_buffersize": draw(st.sampled_from([None, 1000, 7, "n/300", "n/130", "n/2"])),
